@@ -49,6 +49,10 @@ Oracle clauses
                              in-transaction statements) equals that of the control trace, which did not
   C06.read_session           current database / schema (reported and DuckDB's), variables are unchanged by the read
 
+Values: every fixture column and every expression family also produces its type's falsy / identity value (0 in FIXED of
+scale 0 and scale > 0 — stored, computed, aggregated, as status counter, bound —, 0.0, '', FALSE, empty binary, epoch /
+midnight, empty JSON containers), and Python types are compared exactly (`type(x) is`: Decimal('0') is not an int).
+
 Not demanded
   * is_nullable, internal_size, display_size (only through describe == description, where both come from fakesnow)
   * the name of an unaliased expression column (Snowflake derives it from the expression text)
@@ -95,8 +99,30 @@ _LIT = {
 _JLIT = {"any": "parse_json('{\"k\": 1}')", "object": "object_construct('k', 1)", "array": "array_construct(1, 2)"}
 
 
+# every type's falsy / identity value (row 3 of ty): Decimal('0') == 0 == False == 0.0, '' and b'' are falsy, the epoch
+# and midnight are the zero points of the temporal types, [] / {} the empty documents — a conversion written with a
+# truthiness test, or compared with ==, gets exactly these wrong
+_LIT0 = {
+    "bool": "false",
+    "fixed0": "0",
+    "fixedS": "0.0",
+    "float": "0.0",
+    "text": "''",
+    "date": "'1970-01-01'",
+    "time": "'00:00:00'",
+    "ntz": "'1970-01-01 00:00:00'",
+    "tz": "'1970-01-01 00:00:00+00:00'",
+    "binary": "to_binary('', 'hex')",
+}
+_JLIT0 = {"any": "parse_json('[]')", "object": "parse_json('{}')", "array": "parse_json('[]')"}
+
+
 def _lit(t):
     return _LIT.get(t["family"]) or _JLIT[t["json_kind"]]
+
+
+def _lit0(t):
+    return _LIT0.get(t["family"]) or _JLIT0[t["json_kind"]]
 
 
 TY_COLS = [(f"C{i}", t["sql"]) for i, t in enumerate(M.TYPES)]
@@ -108,6 +134,7 @@ TABLES = {
     "src": [("A", "INT"), ("B", "VARCHAR")],
     "ty": [("ID", "INT")] + TY_COLS,
     "vw": [("A", "INT"), ("B", "VARCHAR")],
+    "z": [("ID", "INT"), ("N", "NUMBER(12,0)"), ("D", "NUMBER(12,2)"), ("F", "FLOAT"), ("S", "VARCHAR"), ("B", "BOOLEAN"), ("BIN", "BINARY"), ("V", "VARIANT")],
     "s2.t2": [("K", "INT")],
 }
 
@@ -115,7 +142,13 @@ FIXTURE_TY = [
     "create table ty (id int, " + ", ".join(f"{n} {ty}" for n, ty in TY_COLS) + ")",
     "insert into ty select 1, " + ", ".join(_lit(t) for t in M.TYPES),
     "insert into ty select 2, " + ", ".join("null" for _ in M.TYPES),
-    "insert into ty select 3, " + ", ".join(_lit(t) for t in M.TYPES),
+    "insert into ty select 3, " + ", ".join(_lit0(t) for t in M.TYPES),
+    # z: the zero of each kind next to ordinary values, NULLs and negatives
+    "create table z (id int, n number(12,0), d number(12,2), f float, s varchar, b boolean, bin binary, v variant)",
+    "insert into z select 1, 250, 2.50, 1.5, 's', true, to_binary('AB', 'hex'), parse_json('{\"k\": 1}')",
+    "insert into z select 2, 0, 0.00, 0.0, '', false, to_binary('', 'hex'), parse_json('0')",
+    "insert into z select 3, null, null, null, null, null, null, null",
+    "insert into z select 4, -7, -0.07, -1.5, ' ', false, to_binary('00', 'hex'), parse_json('{}')",
     "create table j (id int, v variant)",
     "insert into j select 1, parse_json('{\"a\": {\"b\": 2}, \"k\": \"s\", \"arr\": [1, 2]}')",
 ]
@@ -199,6 +232,39 @@ def _build():
     Q("lit_unaliased", "literal", ["1", "'a'"])
     Q("lit_quoted_alias", "alias_quoted", [("1", '"lower"'), ("2", "UP"), ("3", "mixed"), ("4", '"with space"')])
     Q("lit_multi", "literal", [("1", "a"), ("1.5", "b"), ("'s'", "c"), ("true", "d"), ("null", "e")])
+    # -- zero / identity values: the value every truthiness test and every == comparison gets wrong ---------------------------
+    for sid, e in [
+        ("int", "0"), ("dec1", "0.0"), ("dec2", "0.00"), ("float", "0e0"), ("number_38_0", "0::number(38,0)"), ("number_10_0", "0::number(10,0)"),
+        ("number_10_2", "0::number(10,2)"), ("cast_float", "0::float"), ("cast_int", "0::int"), ("cast_bigint", "0::bigint"),
+        ("to_number", "to_number('0')"), ("to_decimal", "to_decimal('0')"), ("to_decimal_10_2", "to_decimal('0', 10, 2)"),
+        ("try_to_decimal", "try_to_decimal('0', 10, 0)"), ("date_epoch", "'1970-01-01'::date"), ("time_midnight", "'00:00:00'::time"),
+        ("ntz_epoch", "'1970-01-01 00:00:00'::timestamp_ntz"), ("tz_epoch", "'1970-01-01 00:00:00+00:00'::timestamp_tz"),
+        ("to_timestamp_0", "to_timestamp(0)"), ("binary_empty", "to_binary('', 'hex')"), ("str_empty", "''"), ("false", "false"),
+        ("json_0", "parse_json('0')"), ("json_false", "parse_json('false')"), ("json_empty_str", "parse_json('\"\"')"),
+        ("json_empty_array", "parse_json('[]')"), ("json_empty_object", "parse_json('{}')"), ("json_null", "parse_json('null')"),
+        ("array_construct_empty", "array_construct()"), ("object_construct_empty", "object_construct()"),
+    ]:
+        Q(f"zero_lit_{sid}", "zero_literal", [(e, "x")])
+    Q("zero_lit_row", "zero_literal", [("0", "a"), ("5", "b"), ("0::number(38,0)", "c"), ("7::number(38,0)", "d"), ("0.00", "e"), ("to_number('0')", "f"), ("to_number('5')", "g")])
+    for sid, e, frm in [
+        ("sub_int", "a - a", "t"), ("sub_dec", "x - x", "u"), ("sub_float", "f - f", "u"), ("mul_dec", "x * 0", "u"), ("mod", "a % 1", "t"),
+        ("cast_p0", "(a - 1)::number(10,0)", "t"), ("cast_38_0", "(a - 1)::number(38,0)", "t"), ("cast_dec", "(a - 1)::number(10,2)", "t"),
+        ("sum_minus", "sum(a) - 6", "t"), ("sum_zero_int", "sum(a - a)", "t"), ("sum_zero_dec", "sum(x - x)", "u"), ("sum_zero_float", "sum(f - f)", "u"),
+        ("avg_zero", "avg(a - a)", "t"), ("min_zero", "min(a - 1)", "t"), ("count_none", "count(*)", "t where a > 100"),
+        ("count_if_none", "count_if(a > 100)", "t"), ("win_sum_zero", "sum(a - a) over ()", "t"), ("win_row_number_0", "row_number() over (order by a) - 1", "t"),
+        ("length_empty", "length('')", None), ("round_zero", "round(x - x, 1)", "u"), ("abs_zero", "abs(a - a)", "t"), ("datediff_zero", "datediff(day, d, d)", "u"),
+        ("coalesce_zero", "coalesce(null, 0)", None), ("iff_zero", "iff(a > 1, 0, a)", "t"), ("zeroifnull", "zeroifnull(null)", None),
+    ]:
+        Q(f"zero_expr_{sid}", "zero_expression", [(e, "x")], f"from {frm} order by 1" if frm and " where " not in frm else (f"from {frm}" if frm else ""))
+    STAR("zero_star_z", "zero_table", "select * from z order by id", ["z"])
+    STAR("zero_star_z_row", "zero_table", "select * from z where id = 2", ["z"])
+    Q("zero_cols_z", "zero_table", ["id", "n", "d"], "from z order by id", decl=["INT", "NUMBER(12,0)", "NUMBER(12,2)"])
+    Q("zero_sum_z_row", "zero_table", [("sum(n)", "total"), ("sum(d)", "cents"), ("sum(id)", "ids"), ("sum(f)", "fl")], "from z where id = 2")
+    Q("zero_sum_z", "zero_table", [("sum(n) - 243", "zero"), ("sum(n)", "total"), ("max(n)", "mx"), ("min(abs(n))", "mn")], "from z")
+    Q("zero_group_z", "zero_table", [("b", None), ("sum(n)", "total"), ("count(n)", "cnt")], "from z group by b order by 1")
+    Q("zero_win_z", "zero_table", [("id", None), ("sum(n) over (order by id)", "running"), ("lag(n) over (order by id)", "prev")], "from z order by id")
+    Q("zero_case_z", "zero_table", [("case when n = 0 then n else d end", "x"), ("nvl(n, 0)", "y"), ("n * d", "p")], "from z order by id")
+    S("zero_union_z", "query", "zero_table", "select n as x from z where id = 2 union all select n from z where id = 1", names=["X"], ncols=1, decl=["NUMBER(12,0)"])
     # -- NULL --------------------------------------------------------------------------------------------------------
     Q("null_bare", "null", ["null"])
     Q("null_alias", "null", [("null", "x")])
@@ -403,6 +469,9 @@ def _build():
         ("merge_update", "merge", "merge into t using src on t.a = src.a when matched then update set b = src.b"),
         ("merge_insert", "merge", "merge into t using src on t.a = src.a when not matched then insert (a, b) values (src.a, src.b)"),
         ("merge_delete", "merge", "merge into t using src on t.a = src.a when matched then DELETE"),
+        ("merge_insert_0", "merge", "merge into t using (select a, b from src where a = 1) s on t.a = s.a when matched then update set b = s.b when not matched then insert (a, b) values (s.a, s.b)"),
+        ("merge_update_0", "merge", "merge into t using (select a, b from src where a = 9) s on t.a = s.a when matched then update set b = s.b when not matched then insert (a, b) values (s.a, s.b)"),
+        ("merge_delete_0", "merge", "merge into t using (select a, b from src where a = 9) s on t.a = s.a when matched then DELETE when not matched then insert (a, b) values (s.a, s.b)"),
         ("merge_none", "merge", "merge into t using (select a, b from src where a > 100) s on t.a = s.a when matched then update set b = s.b"),
     ]:
         S(f"dml_{sid}", "dml", form, sql)
@@ -523,7 +592,8 @@ def _build():
     pvals = [
         ("int", 1), ("str", "a"), ("float", 1.5), ("none", None), ("bool", True), ("decimal", D("1.50")),
         ("date", datetime.date(2020, 1, 2)), ("datetime", datetime.datetime(2020, 1, 2, 3, 4, 5)), ("str_quote", "it's"),
-        ("big_int", 2**40),
+        ("big_int", 2**40), ("zero", 0), ("zero_float", 0.0), ("zero_decimal", D("0")), ("zero_decimal_scaled", D("0.00")), ("empty_str", ""),
+        ("false", False), ("epoch_date", datetime.date(1970, 1, 1)), ("epoch_datetime", datetime.datetime(1970, 1, 1, 0, 0, 0)),
     ]
     for style, ph in (("pyformat", "%s"), ("qmark", "?")):
         for lbl, v in pvals:
@@ -533,6 +603,8 @@ def _build():
         Q(f"param_{style}_where_0", f"{style}_select", ["a"], f"from t where b = {ph}", kind="param", style=style, params=("nope",), decl=["INT"])
         Q(f"param_{style}_mixed", f"{style}_select", [("a", None), (ph, "p")], f"from t where a in ({ph}, {ph}) order by a", kind="param", style=style, params=("k", 1, 2))
         Q(f"param_{style}_cast", f"{style}_select", [(f"{ph}::number(10,2)", "x")], kind="param", style=style, params=(1,))
+        Q(f"param_{style}_cast_zero", f"{style}_select", [(f"{ph}::number(38,0)", "x"), (f"{ph}::number(10,2)", "y")], kind="param", style=style, params=(0, 0))
+        Q(f"param_{style}_sum_zero", f"{style}_select", [(f"sum(a) - {ph}", "x")], "from t", kind="param", style=style, params=(6,))
         Q(f"param_{style}_sum", "sum_int", [("sum(a)", "x")], f"from t where a > {ph}", kind="param", style=style, params=(0,))
         S(f"param_{style}_insert", "param", f"{style}_dml", f"insert into t values ({ph}, {ph})", style=style, params=(7, "q"))
         S(f"param_{style}_insert_select", "param", f"{style}_dml", f"insert into t select a, {ph} from src", style=style, params=("q",))
@@ -559,6 +631,10 @@ FORMS = [
     ("count", "count({c}) as x", "from ty", False, ALL),
     ("sum", "sum({c}) as x", "from ty", False, NUMERIC),
     ("avg", "avg({c}) as x", "from ty", False, NUMERIC),
+    ("sum_zero", "sum({c}) as x", "from ty where id = 3", False, NUMERIC),
+    ("max_zero", "max({c}) as x", "from ty where id = 3", True, ORDERED_FAMS),
+    ("count_null", "count({c}) as x", "from ty where id = 2", False, ALL),
+    ("zero_row", "{c} as x", "from ty where id = 3", True, ALL),
     ("cast_varchar", "{c}::varchar as x", "from ty order by id", False, ALL),
     ("cast_self", "{c}::{T} as x", "from ty order by id", True, ALL),
     ("null_cast", "null::{T} as x", "", True, ALL),
@@ -671,6 +747,8 @@ def _build_histories():
     ]
     for lbl, p1, p2 in retypes:
         H(f"retype_{lbl}", "params_retype", [("x", one, p1), ("x", one, p2)], style="qmark", names=["X"])
+    H("retype_int_zero_decimal", "params_retype", [("x", one, [1]), ("x", one, [D("0")])], style="qmark", names=["X"])
+    H("retype_str_zero", "params_retype", [("x", one, ["one"]), ("x", one, [0])], style="qmark", names=["X"])
     H("retype_three", "params_retype", [("x", one, [1]), ("x", one, ["one"]), ("x", one, [1.5])], style="qmark", names=["X"])
     H("retype_first_unread", "params_retype", [("x-", one, [1]), ("x", one, ["one"])], style="qmark", names=["X"])
     H("retype_tuple", "params_retype", [("x", one, (1,)), ("x", one, ("one",))], style="qmark", names=["X"])
